@@ -166,6 +166,11 @@ def run_arith(sc, V, stats):
                         stats["probe_advance_not_multiple_of_100"] += 1
                     if 0 < m < 100:
                         stats["probe_advance_below_granularity"] += 1
+            except lc.StepSizeOverflow as e:
+                V.append(dict(invariant="op.runaway", key=dict(cause="step_size_overflow", sampler=h.kind),
+                              detail="%s: %r raised the give-up error with the step size at infinity: the chain can never step again "
+                                     "(cause: step_size_overflow)" % (h.kind, op)))
+                break
             except lc.StepExhausted:
                 stats["hmc_step_exhausted"] += 1
                 break
@@ -290,7 +295,15 @@ def run_timed(sc, V, stats):
             stats["op_run_for"] += 1
             c.eval_budget = 100_000 + 20 * int(sc["budget_s"] / sc["cost"])
             try:
-                lib_call("run_for(%r)" % (kw,), lc._guard_hmc, h.chain.run_for, **kw)
+                if (cfg["seed"] + rep) % 3 == 0:
+                    # the documented signature run_for(minutes, hours, days) called positionally
+                    args = [kw.get("minutes", 0), kw.get("hours", 0), kw.get("days", 0)]
+                    while len(args) > 1 and args[-1] == 0:
+                        args.pop()
+                    stats["probe_run_for_called_positionally"] += 1
+                    lib_call("run_for%r" % (tuple(args),), lc._guard_hmc, h.chain.run_for, *args)
+                else:
+                    lib_call("run_for(%r)" % (kw,), lc._guard_hmc, h.chain.run_for, **kw)
             except seams.BusyWait as e:
                 _viol(V, "timed.progress", "%s.run_for(%r) with %.4g s per posterior evaluation stopped stepping: %s "
                       "(steps taken so far: %d)" % (h.kind, kw, sc["cost"], e, h.length() - n0))
